@@ -22,7 +22,7 @@ RULE = ('generated classes using MetaThreadSafeAttributes (1-4 attributes, optio
 CASES = {'quick': 1500, 'thorough': 100000}
 BUDGET = {'quick': 150, 'thorough': 600}
 REQUIRE = {'statements': 10000, 'reads_compared': 50000, 'fresh_instance_reads': 2000, 'subclass_cases': 100,
-           'concurrent_runs': 150, 'concurrent_reads_of_foreign_instance': 300, 'switch_inside_descriptor': 100, 'instances_replaced_by_new_ones': 1000, 'instances_made_by_shallow_copy': 500, 'systematic_schedules': 500, 'systematic_scenarios_exhausted': 2, 'statements_touching_two_instances': 400, 'instances_forwarding_unknown_names_to_a_prototype': 150}
+           'concurrent_runs': 150, 'concurrent_reads_of_foreign_instance': 300, 'switch_inside_descriptor': 100, 'instances_replaced_by_new_ones': 1000, 'instances_made_by_shallow_copy': 500, 'systematic_schedules': 500, 'systematic_scenarios_exhausted': 1, 'statements_touching_two_instances': 400, 'instances_forwarding_unknown_names_to_a_prototype': 150}
 ASSUME = ['lost updates / errors / deadlocks on ONE shared instance are C27; the concurrent cases here let only the owner thread write an instance', 'one statement per source line']
 ANNOUNCE_CASES = True
 
